@@ -1178,6 +1178,72 @@ def _copied_flags(g):
     return sorted(n for n in ok if n not in bad and n not in addr_taken and n in copied)
 
 
+def local_array_defs(g):
+    """{name of a local array: [every value stored into one of its elements | None (not a plain assignment)]}, only for
+    arrays of automatic storage that are used element-wise and nowhere else: each occurrence of the name is the base of
+    `a[k]` (read or assigned), no address of an element is formed, the array is not passed on or copied.  What `a[i]`
+    may hold, for any i, is then one of the listed values (cached on g)."""
+    d = _cache_get(g, '_h01_arrdefs')
+    if d is not None:
+        return d
+    arrays, inits = set(), {}
+    for e in g.events():
+        if e['ev'] == 'decl' and 'bound' in e and not e.get('static'):
+            arrays.add(e['name'])
+            ini = e.get('init')
+            if isinstance(ini, dict):
+                inits[e['name']] = list(ini.get('elems') or []) if ini.get('k') == 'init' else [None]
+    total, asbase, escaped, vals = {}, {}, set(), {a: list(inits.get(a, [])) for a in arrays}
+
+    def base_name(ix):
+        b = strip(ix.get('base'))
+        return b['name'] if isinstance(b, dict) and b.get('k') == 'var' and b.get('name') in arrays else None
+
+    def scan(x):
+        for n in walk(x):
+            k = n.get('k')
+            if k == 'var' and n.get('name') in arrays:
+                total[n['name']] = total.get(n['name'], 0) + 1
+            elif k == 'index':
+                a = base_name(n)
+                if a:
+                    asbase[a] = asbase.get(a, 0) + 1
+            elif k == 'addr':
+                y = strip(n.get('e'))
+                while isinstance(y, dict) and y.get('k') in ('index', 'member') and not (y.get('k') == 'member' and y.get('arrow')):
+                    if y.get('k') == 'index' and base_name(y):
+                        escaped.add(base_name(y))
+                    y = strip(y.get('base'))
+    for b in g.blocks.values():
+        for e in b.events:
+            scan({k: v for k, v in e.items() if k not in ('_b', '_i', 'chain')})
+            if e['ev'] == 'store':
+                l = strip(e['lhs'])
+                if isinstance(l, dict) and l.get('k') == 'index' and base_name(l):
+                    vals[base_name(l)].append(e['rhs'] if e.get('op') == '=' and 'rhs' in e else None)
+                elif isinstance(l, dict) and l.get('k') != 'var':
+                    # a store into part of an element (`a[k].f = ..`) is not a plain element assignment
+                    y = l
+                    while isinstance(y, dict) and y.get('k') in ('index', 'member') and not (y.get('k') == 'member' and y.get('arrow')):
+                        y = strip(y.get('base'))
+                        if isinstance(y, dict) and y.get('k') == 'index' and base_name(y):
+                            vals[base_name(y)].append(None)
+        if b.term and b.term.get('cond') is not None:
+            scan(b.term['cond'])
+    d = {a: vals[a] for a in arrays if a not in escaped and total.get(a, 0) == asbase.get(a, 0) and vals[a]}
+    return _cache_put(g, '_h01_arrdefs', d)
+
+
+def element_of_local_array(g, x):
+    """name of the element-wise used local array (local_array_defs) the expression `a[k]` reads, else None"""
+    m = strip(x)
+    if isinstance(m, dict) and m.get('k') == 'index' and g is not None:
+        b = strip(m.get('base'))
+        if isinstance(b, dict) and b.get('k') == 'var' and b['name'] in local_array_defs(g):
+            return b['name']
+    return None
+
+
 def call_targets(g, e, depth=4):
     """the function-pointer members an indirect call may go through: `o->handler(..)`, or a local / parameter /
     return temporary all of whose definitions read such members (`fn = o->handler; fn(arg)`, a trampoline's parameter,
@@ -1187,6 +1253,41 @@ def call_targets(g, e, depth=4):
     if fe is None:
         return []
     seen = set()
+
+    def union(key, ds, how, d):
+        if key in seen:
+            return []
+        seen.add(key)
+        if not ds or any(r is None for r in ds):
+            return None
+        out = []
+        for r in ds:
+            o = how(r, d - 1)
+            if o is None:
+                return None
+            out += o
+        return out
+
+    def ptr(x, d):
+        """members the pointer value x may designate: `&o->f`, a local pointer or an element of a local table of
+        pointers all of whose definitions are such addresses, `c ? &o->a : &o->b`; None when not understood"""
+        m = strip(x)
+        if not isinstance(m, dict):
+            return None
+        if m.get('k') == 'addr':
+            y = strip(m['e'])
+            return [y] if isinstance(y, dict) and y.get('k') == 'member' else None
+        if m.get('k') == 'cond':
+            a, b = ptr(m['a'], d), ptr(m['b'], d)
+            return None if a is None or b is None else a + b
+        if d <= 0 or g is None:
+            return None
+        arr = element_of_local_array(g, m)
+        if arr:
+            return union(('parr', arr), local_array_defs(g)[arr], ptr, d)
+        if is_localvar(m):
+            return union(('pvar', m['name']), local_defs(g).get(m['name']), ptr, d)
+        return None
 
     def res(x, d):
         m = strip(x)
@@ -1199,6 +1300,13 @@ def call_targets(g, e, depth=4):
             return None if a is None or b is None else a + b
         if m.get('k') == 'null' or (m.get('k') == 'int' and m.get('v') == 0):
             return []          # a NULL alternative is never called
+        if m.get('k') == 'deref' and d > 0:
+            # `*p` with p a pointer to a function-pointer member: what is called is the member p designates
+            return ptr(m['e'], d - 1)
+        arr = element_of_local_array(g, m)
+        if arr and d > 0:
+            # an element of a local table of function pointers (`tab[0] = o->a; tab[1] = o->b; tab[i](..)`)
+            return union(('arr', arr), local_array_defs(g)[arr], res, d)
         if is_localvar(m) and g is not None and d > 0:
             if m['name'] in seen:
                 return []
@@ -1321,26 +1429,93 @@ def stale_after_callback(fn, is_callback, keep_kinds=()):
             del objvars[v]
     # interior pointers: a local only ever assigned `&v->member...` of an object pointer v dies and revives with v
     derived = {}
-    for d, ds in defs.items():
-        if d in objvars or not ds or any(r is None for r in ds):
-            continue
-        owners = set()
-        for r in ds:
-            a = strip(r)
-            o = None
-            if isinstance(a, dict) and a.get('k') == 'addr':
-                y = strip(a['e'])
-                while isinstance(y, dict) and y.get('k') in ('member', 'index'):
-                    if y.get('k') == 'member' and y['arrow']:
-                        b = strip(y['base'])
-                        o = b['name'] if is_localvar(b) and b['name'] in objvars else None
-                        break
-                    y = strip(y['base'])
-            owners.add(o)
-        if len(owners) == 1 and None not in owners:
-            derived[d] = owners.pop()
+
+    tables = {}         # array -> [pseudo-names]
+
+    def owner_of(r):
+        a = strip(r)
+        if isinstance(a, dict) and a.get('k') == 'addr':
+            y = strip(a['e'])
+            while isinstance(y, dict) and y.get('k') in ('member', 'index'):
+                if y.get('k') == 'member' and y['arrow']:
+                    b = strip(y['base'])
+                    return b['name'] if is_localvar(b) and b['name'] in objvars else None
+                y = strip(y['base'])
+            return None
+        if isinstance(a, dict) and a.get('k') == 'cond':
+            o1, o2 = owner_of(a['a']), owner_of(a['b'])
+            return o1 if o1 == o2 else None
+        # a copy of an interior pointer, or an element of a table of interior pointers, belongs to the same object
+        if is_localvar(a) and a['name'] in derived and a['name'] not in tables:
+            return derived[a['name']]
+        t = element_of_local_array(fn, a)
+        if t in tables:
+            return derived[t]
+        return None
+    # interior pointers: a local only ever assigned `&v->member...` of an object pointer v (or a copy of such a pointer)
+    # dies and revives with v.  A local table of interior pointers (`slot[0] = &v->a; slot[1] = &v->b; ... *slot[i]`)
+    # likewise: an element is tracked under the pseudo-name `slot[k]` (strong update by `slot[k] = ..`), or as
+    # `slot[*]` (never refreshed by an element store) when some store has a computed index
+    arrdefs = local_array_defs(fn)
+    changed = True
+    while changed:
+        changed = False
+        for d, ds in defs.items():
+            if d in objvars or d in derived or not ds or any(r is None for r in ds):
+                continue
+            owners = {owner_of(r) for r in ds}
+            if len(owners) == 1 and None not in owners:
+                derived[d] = owners.pop()
+                changed = True
+        for a, ds in arrdefs.items():
+            if a in objvars or a in derived or any(r is None for r in ds):
+                continue
+            owners = {owner_of(r) for r in ds}
+            if len(owners) != 1 or None in owners:
+                continue
+            ks = set()
+            for e in fn.events():
+                if e['ev'] == 'decl' and e.get('name') == a and isinstance(e.get('init'), dict):
+                    ks |= set(range(len(e['init'].get('elems') or [])))
+                if e['ev'] == 'store':
+                    l = strip(e['lhs'])
+                    if isinstance(l, dict) and l.get('k') == 'index' and element_of_local_array(fn, l) == a:
+                        ks.add(const_of(l.get('idx')))
+            names = ['%s[*]' % a] if None in ks else ['%s[%d]' % (a, k) for k in sorted(ks)]
+            tables[a] = names
+            v = owners.pop()
+            for n in names:
+                derived[n] = v
+            derived[a] = v
+            changed = True
+
+    def table_access(x):
+        """(array, pseudo-names read) when the access path x dereferences an element of a tracked table"""
+        x = strip(x) if isinstance(x, dict) and x.get('k') in ('cast', 'stmtexpr') else x
+        while isinstance(x, dict):
+            k = x.get('k')
+            if k == 'member' and x['arrow']:
+                b = strip(x['base'])
+            elif k == 'deref':
+                b = strip(x['e'])
+            elif k in ('member', 'index'):
+                x = x['base']
+                continue
+            elif k in ('cast', 'addr', 'load'):
+                x = x['e']
+                continue
+            else:
+                return None
+            a = element_of_local_array(fn, b)
+            if a in tables:
+                c = const_of(b.get('idx'))
+                n = '%s[%d]' % (a, c) if c is not None else None
+                return a, ([n] if n in tables[a] else list(tables[a]))
+            return None
+        return None
     for d, v in derived.items():
-        objvars[d] = objvars[v]
+        if '[' not in d:
+            objvars[d] = objvars[v]
     published = set()       # locals whose address is stored somewhere
     for e in fn.events():
         if e['ev'] == 'store' and e.get('op') == '=' and 'rhs' in e:
@@ -1370,11 +1545,26 @@ def stale_after_callback(fn, is_callback, keep_kinds=()):
     def transfer(e, S):
         if e['ev'] == 'store':
             l = strip(e['lhs'])
-            if l.get('k') == 'var' and any(x[0] == l['name'] for x in S):
+            n = None
+            if l.get('k') == 'var' and (l['name'] in derived or any(x[0] == l['name'] for x in S)):
                 S = frozenset(x for x in S if x[0] != l['name'])
+                n = l['name'] if l['name'] in derived else None
+            elif l.get('k') == 'index' and S and element_of_local_array(fn, l) in tables:
+                c = const_of(l.get('idx'))
+                if c is not None:
+                    n = '%s[%d]' % (element_of_local_array(fn, l), c)
+                    S = frozenset(x for x in S if x[0] != n)
+            if n is not None and S:
+                # an interior pointer computed from an object that is stale at this point is stale itself
+                src = [x for x in S if x[0] == derived[n]]
+                if src:
+                    S = S | frozenset([(n, src[0][1])])
         elif e['ev'] == 'decl':
             if any(x[0] == e['name'] for x in S):
                 S = frozenset(x for x in S if x[0] != e['name'])
+            if e['name'] in tables and S:
+                # a new incarnation of the table: its elements are (re)defined by the initialiser / not yet defined
+                S = frozenset(x for x in S if x[0] not in tables[e['name']])
         elif e['ev'] == 'call':
             cb = is_callback(e)
             if cb:
@@ -1382,7 +1572,8 @@ def stale_after_callback(fn, is_callback, keep_kinds=()):
                 for v, rec in objvars.items():
                     if rec in keep_kinds or (cb == 'work' and rec == 'iv_work_item'):
                         continue
-                    add.add((v, e.get('loc')))
+                    for n in tables.get(v, [v]):
+                        add.add((n, e.get('loc')))
                 S = S | frozenset(add)
         return S
 
@@ -1414,6 +1605,23 @@ def stale_after_callback(fn, is_callback, keep_kinds=()):
             for (v, acc) in derefs_by_event(e):
                 if v['name'] in names:
                     reports.append((e, v['name'], acc, names[v['name']]))
+            if tables:
+                cands = []
+                if e['ev'] == 'load':
+                    cands.append(e['e'])
+                elif e['ev'] == 'store':
+                    cands.append(e['lhs'])
+                elif e['ev'] in ('call', 'enter'):
+                    cands += [strip(a)['e'] for a in e.get('args', []) if isinstance(strip(a), dict) and strip(a).get('k') == 'addr']
+                    if e['ev'] == 'call' and 'fnexpr' in e:
+                        cands.append(strip(e['fnexpr']))
+                for x in cands:
+                    t = table_access(x)
+                    if t:
+                        for n in t[1]:
+                            if n in names:
+                                reports.append((e, t[0], canon(x), names[n]))
+                                break
     return reports, objvars, markers
 
 
